@@ -251,7 +251,7 @@ inline int engine_main(int argc, char** argv, Engine& eng)
 	vf_quiet = args.verbose ? 0 : 1;
 	if (!args.replay.empty()) {
 		Case c = Case::parse(args.replay);
-		arm_watchdog(600);
+		arm_watchdog(3000);
 		int rc = 1;
 		try { rc = eng.replay(c, args); }
 		catch (harness_error const& e) { std::fprintf(stdout, "harness error: %s\n", e.what()); return 2; }
